@@ -87,9 +87,10 @@ var stringPool = map[string]string{
 	"nul":     "a\x00b",
 	"numeric": "123",
 	"word":    "x",
+	"padded":  " a\t\n",
 	"64k":     strings.Repeat("0123456789abcdef", 4096),
 }
-var stringNames = []string{"empty", "ascii", "utf8", "nonutf8", "nul", "numeric", "64k"}
+var stringNames = []string{"empty", "ascii", "utf8", "nonutf8", "nul", "numeric", "padded", "64k"}
 
 func (v sval) toData() data.Value {
 	switch v.T {
@@ -183,6 +184,7 @@ func foreignPool(k *kindT) []sval {
 		{T: "array", C: "foreign:array"},
 		{T: "int", I: 7, C: "foreign:int"},
 		fv(2.5, "foreign:float"),
+		fv(3, "foreign:integral-float"),
 		{T: "string", S: "word", C: "foreign:string"},
 		{T: "string", S: "numeric", C: "foreign:numeric-string"},
 		{T: "bool", B: true, C: "foreign:bool"},
@@ -217,6 +219,7 @@ const (
 	expError                     // value not representable: the call must end in a catchable error
 	expRoundOrEr                 // inexact in the target float: IEEE rounding or an error are both accepted
 	expOpen                      // other script type: only "no crash"
+	expIfAccepted                // other script type with one numerically unambiguous image: error, or exactly want
 )
 
 type paramExp struct {
@@ -226,7 +229,7 @@ type paramExp struct {
 
 func expectParam(k *kindT, v sval) paramExp {
 	if v.T != k.Fam {
-		return paramExp{Class: expOpen}
+		return crossExpect(k, v)
 	}
 	switch k.Fam {
 	case "string":
@@ -255,6 +258,37 @@ func expectParam(k *kindT, v sval) paramExp {
 		w.SetUint(uint64(v.I))
 	}
 	return paramExp{expExact, w}
+}
+
+// crossExpect: a value of another script type may be refused; where it has exactly one
+// numerically faithful image in the target kind (int 7 -> 7.0, float 3.0 -> 3, true -> 1,
+// "123" -> 123) an accepted call must deliver that image. Everything else is left open.
+func crossExpect(k *kindT, v sval) paramExp {
+	var num float64
+	switch {
+	case v.T == "int":
+		num = float64(v.I)
+	case v.T == "float" && math.Float64frombits(v.F) == math.Trunc(math.Float64frombits(v.F)):
+		num = math.Float64frombits(v.F)
+	case v.T == "bool" && v.B:
+		num = 1
+	case v.T == "string" && v.S == "numeric":
+		num = 123
+	default:
+		return paramExp{Class: expOpen}
+	}
+	w := reflect.New(k.T).Elem()
+	switch {
+	case k.Fam == "float":
+		w.SetFloat(num)
+	case k.Fam == "int" && k.Signed:
+		w.SetInt(int64(num))
+	case k.Fam == "int":
+		w.SetUint(uint64(num))
+	default:
+		return paramExp{Class: expOpen}
+	}
+	return paramExp{expIfAccepted, w}
 }
 
 // sameGo reports bitwise identity of two Go values of the same kind (any NaN equals any NaN).
